@@ -54,7 +54,7 @@ func minimise(t *testing.T, rf *ReplayFile, budgetSec float64) *ReplayFile {
 	orig := len(steps)
 	try := func(cand []*Step) *Violation {
 		res := runOne(t, &runSpec{Property: rf.Property, Seed: rf.Seed, Config: rf.Config, Steps: cand,
-			StopAt: &Violation{Property: rf.Property, Oracle: rf.Oracle}})
+			StopAt: &Violation{Property: rf.Property, Oracle: rf.Oracle, Key: rf.Key}})
 		if res.Error != "" {
 			return nil
 		}
@@ -102,7 +102,7 @@ func minimise(t *testing.T, rf *ReplayFile, budgetSec float64) *ReplayFile {
 	out.Steps = steps
 	out.MinimisedFrom = orig
 	res := runOne(t, &runSpec{Property: rf.Property, Seed: rf.Seed, Config: rf.Config, Steps: steps, TracePer: false,
-		StopAt: &Violation{Property: rf.Property, Oracle: rf.Oracle}})
+		StopAt: &Violation{Property: rf.Property, Oracle: rf.Oracle, Key: rf.Key}})
 	if v := sameViolation(res, rf); v != nil {
 		out.Message = v.Message
 		out.FiredAtStep = v.Step
